@@ -216,7 +216,12 @@ pub fn compress_case(case: &Value, _d: Dispatch, r: &mut Report) {
                 p += 1;
             }
             let payload = &f[p.min(n_f)..];
-            for new_d in [0u64, 1, d.len() as u64 + 1, d.len().saturating_sub(1) as u64, 65536, 0xFFFF_FFFF] {
+            // announced lengths: small, off by one, just above the reservation cap, plausible multiples of
+            // the compressed length (an inflater can expand by at most ~1032:1), and the extremes
+            let cl = payload.len() as u64;
+            for new_d in [0u64, 1, d.len() as u64 + 1, d.len().saturating_sub(1) as u64, 65536, 65537, 100_000, 1 << 20, 1 << 24,
+                          cl * 100, cl * 1000, cl * 1032, cl * 1033, 0x7FFF_FFFF, 0xFFFF_FFFF] {
+                let new_d = new_d.min(0xFFFF_FFFF);
                 for new_z in [payload.len() as u64, 0, 1, payload.len() as u64 + 1, payload.len().saturating_sub(1) as u64, 65536, 0xFFFF_FFFF] {
                     let mut x = varu(new_d);
                     x.extend(varu(new_z));
